@@ -325,6 +325,8 @@ func ruleC05(c *Ctx) {
 	c.rule("C05-R2", "operands: now = (*dsig.Clock).Now(sp.Clock); bound = time.Parse(RFC3339|RFC3339Nano, <the named field>) with no arithmetic in between")
 	c.rule("C05-R3", "no wall clock: zero calls to time.Now/Since/Until in library scope (positive control must fire)")
 	c.rule("C05-R4", "missing or unparsable bound => typed error on every path (required-fact table of VerifyAssertionConditions)")
+	c.rule("C05-R6", "each assertion's bounds are its own: every verified assertion is decoded into a fresh object (shared appendProvenance, also C01-R2 / C03-R4 / C04-R5 / C08-R4) — encoding/xml merges into existing state, so a reused target makes assertions share Subject / Conditions")
+	appendProvenance(c, "C05-R6")
 	c.rule("C05-R5", "the warning is computed on element [0] of the validated response; the hard expiry sits in the all-assertions loop")
 
 	// --- hard expiry in Validate
